@@ -231,21 +231,45 @@ def assign_target(self, t, v):
     raise Unsupported(f"assignment target {k.__name__}")
 
 
+_LOOPS_MEMO: dict = {}
+
+
 def _loop_key(self, st):
     fr = self.frames[-1]
     if fr.func is None:
         return None
-    # ordinal = index of this loop among all loops of the function body in source order
-    loops = [n for n in ast.walk(fr.func.node) if isinstance(n, (ast.For, ast.While, ast.AsyncFor))]
-    loops.sort(key=lambda n: (n.lineno, n.col_offset))
-    own = []
-    for n in loops:
-        own.append(n)
-    try:
-        ordinal = own.index(st)
-    except ValueError:
+    # ordinal = index of this loop among all loops of the function body in source order (memoised per function node)
+    memo = _LOOPS_MEMO.get(id(fr.func.node))
+    if memo is None:
+        loops = [n for n in ast.walk(fr.func.node) if isinstance(n, (ast.For, ast.While, ast.AsyncFor))]
+        loops.sort(key=lambda n: (n.lineno, n.col_offset))
+        memo = ({id(n): i for i, n in enumerate(loops)}, fr.func.node)
+        _LOOPS_MEMO[id(fr.func.node)] = memo
+    ordinal = memo[0].get(id(st))
+    if ordinal is None:
         return None
     return (f"{fr.func.module.relpath}::{fr.func.qualname}", ordinal)
+
+
+def _live_iteration(self, it, snapshot):
+    """CPython iterates over the LIVE container: a list iterator walks by index (removing the current element skips the next one,
+    appending extends the loop), dict and set iterators raise RuntimeError when the size changed.  `snapshot` is used for everything
+    else (tuples, ranges, generators already materialised, symbolic sequences)."""
+    from .values import PDict, PList, PSet
+    if isinstance(it, PList) and not it.symbolic:
+        i = 0
+        while i < len(it.items):
+            yield it.items[i]
+            i += 1
+        return
+    if isinstance(it, (PDict, PSet)) and not it.symbolic:
+        n0 = len(it.items)
+        for x in snapshot:
+            if len(it.items) != n0:
+                self.raise_exc("RuntimeError", ("dictionary" if isinstance(it, PDict) else "Set") + " changed size during iteration")
+            yield x
+        return
+    yield from snapshot
 
 
 def exec_for(self, st):
@@ -259,7 +283,7 @@ def exec_for(self, st):
     except Unsupported as e:
         raise Unsupported(f"{e} [loop {key}]") from None
     broke = False
-    for x in items:
+    for x in _live_iteration(self, it, items):
         self.assign_target(st.target, x)
         try:
             self.exec_block(st.body)
